@@ -195,6 +195,11 @@ func (b *Buffer) ServeHTTP(w http.ResponseWriter, req *http.Request) {
 			return
 		}
 
+		// A handler that never called WriteHeader answered 200, as with net/http.
+		if bw.code == 0 {
+			bw.code = http.StatusOK
+		}
+
 		var reader multibuf.MultiReader
 		if bw.expectBody(outReq) {
 			rdr, err := writer.Reader()
